@@ -47,7 +47,9 @@ LEVEL_TEXT = ("Lean theorems over constructor-call trees driven by the regenerat
               "property oracle executes the exported source (plain / encapsulated / formatted) with the library's import "
               "statement and compares repr, FLL and bit-identical outputs.")
 LEVEL_NOTE = ("Carried by the correspondence only: executing the exported source, repr(float)/repr(str), black, bit-identical "
-              "outputs, PythonExporter.encapsulate's class / function wrapper. Trusted: Lean kernel, standard axioms, tracer "
+              "outputs; reprlib's elision limits (lists nested more than 10 deep, 6e6 elements, 3e7 characters). Tied by proof (code -> model): "
+              "package_of, import_statement, as_constructor, the type dispatch of repr, repr_float, repr_ndarray, the __repr__ of Rule / "
+              "RuleBlock / Variable / OutputVariable, PythonExporter.encapsulate / to_string / engine. Trusted: Lean kernel, standard axioms, tracer "
               "tables (introspection + probing of every __repr__), harness.")
 TECHNIQUE = "Lean 4 proof over a constructor-call model tied to regenerated signature / __repr__ tables + execution of the exported source by the real interpreter"
 
